@@ -26,6 +26,18 @@ class _Continue(Exception):
   pass
 
 
+class NeedWeak(Exception):
+  """The body of a cut loop writes to a container that the loop contract does not havoc.  The
+  unit is re-explored with that allocation site abstracted to a fully nondeterministic
+  container (sound over-approximation: any content at any time)."""
+  def __init__(self, site):
+    Exception.__init__(self, "weak site %r" % (site,))
+    self.site = site
+
+
+WEAK_SITES = set()
+
+
 class AnchorMoved(Exception):
   """A loop contract's anchor no longer matches the source: UNDECIDED, not a violation."""
 
@@ -787,16 +799,36 @@ class Interp(object):
         out.append(self.eval(e, fr))
     return tuple(out)
 
+  def site_of(self, n, fr):
+    return (fr.func.qualname if fr.func else '?', getattr(n, 'lineno', 0), getattr(n, 'col_offset', 0))
+
+  def weak_or(self, n, fr, make):
+    site = self.site_of(n, fr)
+    if site in WEAK_SITES:
+      from .models import WeakContainer
+      return WeakContainer(site)
+    o = make()
+    try:
+      o.site = site
+    except AttributeError:
+      pass
+    return o
+
   def e_List(self, n, fr):
     from .models import PyList
-    return PyList([self.eval(e, fr) for e in n.elts])
+    return self.weak_or(n, fr, lambda: PyList([self.eval(e, fr) for e in n.elts]))
 
   def e_Set(self, n, fr):
     from .models import PySetLit
-    return PySetLit([self.eval(e, fr) for e in n.elts])
+    return self.weak_or(n, fr, lambda: PySetLit([self.eval(e, fr) for e in n.elts]))
 
   def e_Dict(self, n, fr):
+    site = self.site_of(n, fr)
+    if site in WEAK_SITES:
+      from .models import WeakContainer
+      return WeakContainer(site)
     d = DictLit({})
+    d.site = site
     for k, v in zip(n.keys, n.values):
       kk = self.eval(k, fr)
       d.items[kk] = self.eval(v, fr)
@@ -975,6 +1007,8 @@ class Interp(object):
     if isinstance(n.func, ast.Name) and n.func.id == 'super':
       return self.make_super(n, fr)
     f = self.eval(n.func, fr)
+    if isinstance(f, Builtin) and f.name in ('set', 'list', 'dict') and not n.args and not n.keywords:
+      return self.weak_or(n, fr, lambda: self.call(f, [], {}))
     args = []
     for a in n.args:
       if isinstance(a, ast.Starred):
@@ -1350,8 +1384,13 @@ class Interp(object):
         continue
       now = fr.locals.get(k, MISSING)
       if v is not MISSING and now is v and not isinstance(v, (Model, PyObj)):
-        raise EngineError("loop %s/%d: local %r is assigned in the body but not havocked" %
-                          (fr.func.qualname, ordn, k))
+        # a local that the body re-assigns but the contract does not mention: havoc it to an
+        # unconstrained value of the same kind when that is possible
+        hv = self.auto_havoc_value(v, k)
+        if hv is MISSING:
+          raise EngineError("loop %s/%d: local %r is assigned in the body but not havocked" %
+                            (fr.func.qualname, ordn, k))
+        fr.locals[k] = hv
     for label, f in spec.inv(fr):
       ctx.assume(f)
     v0 = spec.variant(fr) if spec.variant else None
@@ -1384,12 +1423,28 @@ class Interp(object):
         ctx.stop()
       return 'exit'
 
+  def auto_havoc_value(self, v, hint):
+    if isinstance(v, bool):
+      return self.ctx.fresh(z3.BoolSort(), hint)
+    if isinstance(v, int):
+      return self.ctx.fresh(z3.IntSort(), hint)
+    if isinstance(v, float):
+      return self.ctx.fresh(z3.RealSort(), hint)
+    if is_z3(v):
+      return self.ctx.fresh(v.sort(), hint)
+    if v is None:
+      return MISSING
+    return MISSING
+
   def frame_check(self, mark, havocked, birth, fr, ordn):
     for (o, f) in self.writes[mark:]:
       if id(o) in havocked:
         continue
       if getattr(o, 'birth', 0) > birth or getattr(o, 'ghost', False):
         continue
+      site = getattr(o, 'site', None)
+      if site is not None:
+        raise NeedWeak(site)
       raise EngineError("loop %s/%d: body writes %r.%s which the loop contract does not havoc" %
                         (fr.func.qualname, ordn, o, f))
 
